@@ -102,11 +102,11 @@ def pqFinish (what g : Nat) : Nat × Nat :=
   let q := what / g
   if p > q then (q, p) else (p, q)
 
-/-- the outer `for !(1 < g < what)` loop; `i` = round counter, `tape` = remaining random words.
+/-- the outer `for !(1 < g < what)` loop; `i` = round counter, `tape` = remaining random words; a result carries the number of rounds done.
 Each round first draws `v` (panics for `what = 0`), then `x` (panics for `what = 1`). -/
-def pqLoop (what : Nat) : List Nat → Nat → Nat → Except PQErr (Nat × Nat)
+def pqLoop (what : Nat) : List Nat → Nat → Nat → Except PQErr (Nat × Nat × Nat)
   | tape, i, g =>
-    if Facts.C13.pqValue1 < g ∧ g < what then .ok (pqFinish what g)
+    if Facts.C13.pqValue1 < g ∧ g < what then .ok ((pqFinish what g).1, (pqFinish what g).2, i)
     else match tape with
       | [] => .error .tape
       | [_] => if what = 0 then .error .panic else .error .tape
@@ -119,6 +119,16 @@ def pqLoop (what : Nat) : List Nat → Nat → Nat → Except PQErr (Nat × Nat)
           pqLoop what rest (i + 1) (rhoInner what v (lim - 1) 1 x x g)
 
 /-- `crypto.DecomposePQ pq randSource` for `pq ≥ 0` (`.panic` = the division-by-zero panics of `pq ∈ {0, 1}`). -/
-def decomposePQ (pq : Nat) (tape : List Nat) : Except PQErr (Nat × Nat) := pqLoop pq tape 0 0
+def decomposePQ (pq : Nat) (tape : List Nat) : Except PQErr (Nat × Nat) :=
+  match pqLoop pq tape 0 0 with
+  | .ok (p, q, _) => .ok (p, q)
+  | .error e => .error e
+
+/-- Number of rounds of the outer loop (= pairs of random words consumed) of a successful run: an
+observable of the path taken, compared with the implementation's consumption of its random source. -/
+def decomposeRounds (pq : Nat) (tape : List Nat) : Option Nat :=
+  match pqLoop pq tape 0 0 with
+  | .ok (_, _, k) => some k
+  | .error _ => none
 
 end TdModel.C13
